@@ -658,8 +658,9 @@ def _fit_windows(
 
 
 def _clip_to_data_range(data: sc.DataArray, windows: sc.Variable) -> sc.Variable:
-    lo = data.coords[data.dim].min()
-    hi = data.coords[data.dim].max()
+    # The coordinate may have a different dtype than the windows, e.g., float32.
+    lo = data.coords[data.dim].min().to(dtype=windows.dtype, copy=False)
+    hi = data.coords[data.dim].max().to(dtype=windows.dtype, copy=False)
     windows = sc.where(windows < lo, lo, windows)
     windows = sc.where(windows > hi, hi, windows)
     return windows
